@@ -131,6 +131,10 @@ class World:
             for p in ms['params']:
                 if p['name'] == 'value' and '$' in p['spec'].get('unit', ''):
                     p['spec']['unit'] = p['spec']['unit'].replace('$', 'V')    # the main unit can not refer to itself
+        for ms in mspecs:
+            if rng.random() < 0.4:
+                # feature mixins in front of and / or behind the interface class
+                ms['features'] = [(fn, rng.choice(['before', 'after'])) for fn in rng.sample(['HasVerifA', 'HasVerifB', 'HasVerifC'], rng.choice([1, 2]))]
         events, hw, cfg = [], {}, {}
         for ms in mspecs:
             cls = modgen.build_class(ms, events, hw=hw)
@@ -199,9 +203,11 @@ class World:
             if md.get('interface_classes') != ic:
                 r.violation('C06/structure/interface-classes', f'{ms["name"]}: {md.get("interface_classes")} instead of {ic}', case)
                 return
-            if md.get('features', []) != []:
-                r.violation('C06/structure/features', repr(md.get('features')), case)
+            if sorted(md.get('features', [])) != sorted(fn for fn, _ in ms.get('features', [])):
+                r.violation('C06/structure/features', f'{ms["name"]}: described {md.get("features")}, class has {ms.get("features", [])}', case)
                 return
+            if ms.get('features'):
+                r.count('modules_with_features')
             if md.get('implementation') != f'vlib.modgen.generated.Gen_{ms["name"]}':
                 r.violation('C06/structure/implementation', repr(md.get('implementation')), case)
                 return
